@@ -409,6 +409,30 @@ def gen_stackhist(rng):
                                                     ' ndarray arguments' if arrays else '', ' raising' if 'raising' in kinds else ''), lines=[line])
 
 
+def gen_steps(rng):
+    """constructor applications BETWEEN the calls of a history: the cache dict is a wrapper parameter, so a re-wrapped cached
+    function (cache(cache(f)), cache(try_none(g1)), another decorator put on top) keeps what it has stored.  Only the newest
+    object is called; calls are valid and non-raising (scalars), with == twins"""
+    sig = rng.choice([(['a'], [], None, None), (['a', 'b'], [DEFAULTS[0]], None, None), (['a', 'b'], [DEFAULTS[0]], 'args', 'kw')])
+    calls = [(a, k) for a, k in valid_calls(sig) if (a or k) and all(n in sig[0] for n in k)]
+    pool = []
+    for _ in range(rng.choice([1, 2, 3])):
+        a, k = rng.choice(calls)
+        pool.append(([rng.choice([0, 1, 2, 2.5, True, 'x', None]) for _ in a], {n: rng.choice([0, 1, 'x']) for n in k}))
+    steps = [('wrap', 'cache_func', {})] if rng.random() < 0.7 else []
+    for _ in range(rng.choice([3, 5, 8])):
+        if rng.random() < 0.4:
+            c = rng.choice(['cache_func', 'cache_func', 'try_value', 'try_back', 'kwargs_support', 'pd2np'])
+            steps.append(('wrap', c, deco_params(rng, c)))
+        else:
+            a, k = rng.choice(pool)
+            if rng.random() < 0.2:
+                a = [float(x) if isinstance(x, int) and not isinstance(x, bool) else x for x in a]
+            steps.append(('call', list(a), dict(k)))
+    line = '(deco stackhist2 %s %s)' % (sig_enc(sig), '(L' + ''.join(' (T %s %s %s)' % (enc(x[0]), enc(x[1]), enc(x[2])) for x in steps) + ')')
+    return dict(tag='stack history with constructor applications between the calls', lines=[line])
+
+
 def generate(rng, tier):
     q = tier == 'quick'
     sigs = list(all_sigs())
@@ -485,6 +509,8 @@ def generate(rng, tier):
         yield gen_cache(rng, raising=rng.random() < 0.2, unhashable=True)
     for _ in range(600 if q else 12000):
         yield gen_stackhist(rng)
+    for _ in range(300 if q else 6000):
+        yield gen_steps(rng)
 
 
 # ---------------------------------------------------------------- implementation runner
@@ -559,6 +585,19 @@ def run_line(state, sx):
             r = mark(res_val(lambda: g(*args, **kw)))
             out.append((r, Counter.n))
         return 'ok ' + enc(out)
+    if op == 'stackhist2':
+        g = f
+        Counter.n = 0
+        out = []
+        for step in a[1][1:]:
+            kind = proto.dec(step[1])
+            if kind == 'wrap':
+                g = construct(proto.dec(step[2]), proto.dec(step[3]), g)
+            else:
+                args, kw = proto.dec(step[2]), proto.dec(step[3])
+                r = res_val(lambda: g(*args, **kw))
+                out.append((r, Counter.n))
+        return 'ok ' + enc(out)
     if op == 'stack':
         g = f
         for cls, params in decos_dec(a[1]):
@@ -630,6 +669,8 @@ def nontrivial(line, reply):
         return len(sx[3]) > 2
     if sx[1] == 'stackhist':
         return len(sx[4]) > 2
+    if sx[1] == 'stackhist2':
+        return len(sx[3]) > 2
     return len(sx[-2]) > 1 or len(sx[-1]) > 1
 
 
